@@ -18,7 +18,7 @@ SPEC = {
     'bounded': [
         ('cutoffs-and-nearest-points', suites.case_C05, 1500, 200000, RULE + '; ' + 'non-trivial = some candidate was cut off or the path has >= 2 states', ''),
         ('cutoffs-and-nearest-points(lat-lon)', geo_suites.case_C05_latlon, 1500, 100000,
-         'universe maps and traces placed at 10 m per grid unit at 7 anchors (|lat| < 60), half of them with fixes a few decimetres from a node; lat-lon metric, cut-offs in '
+         'universe maps and traces placed at 10 m per grid unit at 7 anchors (|lat| < 60), one case in five at regional scale (20 km per grid unit: links of 10-100 km, fixes kilometres off), half of the others with fixes a few decimetres from a node; lat-lon metric, cut-offs in '
          'metres; every emitting state of the best path against an independent spherical reference (12 cm + 1e-6); non-trivial = path with >= 2 states', '')],
 }
 
